@@ -301,7 +301,7 @@ PROPS = {
     "C10": {
         "builds": EMIT, "runs": c10_runs, "level": "model_checking",
         "technique": "explicit-state BFS to fixpoint over a two-responder world (A emits, B observes) with an in-flight frame queue; B's QueryResp checked against the frames delivered",
-        "assumptions": ["in-flight queue bounded at 3 frames (Emit disabled while it would overflow)", "three address assignments for (A,B)"],
+        "assumptions": ["in-flight queue bounded at 2 frames in the quick tier, 3 in the thorough tier (Emit disabled while it would overflow)", "three address assignments for (A,B)"],
     },
     "C07": {
         "builds": OBS, "runs": obs_runs("c07"), "level": "model_checking",
